@@ -204,5 +204,5 @@ def run(check, ctx):
     # KangarooTwelve's tree bookkeeping in Python
     from . import c09_extra
     c09_extra.k12_tree_rows(check, repo)
-    check.undecided.append("digest values: compression functions, the compression functions and the Keccak permutation themselves; MD2/MD4/BLAKE2 padding in C; "
-                           "KangarooTwelve tree bookkeeping values; Poly1305 beyond the boundary table")
+    check.undecided.append("digest values beyond the message table of K-kat|c|digest (the compression functions and Keccak-p are straight-line code, "
+                           "one block exercises every operation, but only those rows are decided); Poly1305 beyond the boundary table")
